@@ -94,7 +94,15 @@ impl RuleSpec
     pub fn render(&self) -> String
     {
         let mut s = String::new();
-        for t in &self.targets { s.push_str(t); s.push('\n'); }
+        // a path with a directory part is written as a tab-indented bundle
+        for t in &self.targets
+        {
+            match t.find('/')
+            {
+                Some(i) => { s.push_str(&t[..i]); s.push_str("\n\t"); s.push_str(&t[i + 1..]); s.push('\n'); },
+                None => { s.push_str(t); s.push('\n'); },
+            }
+        }
         s.push_str(":\n");
         for t in &self.sources { s.push_str(t); s.push('\n'); }
         s.push_str(":\n");
